@@ -223,6 +223,8 @@ def kindEq : TStep → TStep → Bool
     fields separated by one blank, then either the end of the entry, or a rest-of-entry string, or character-strings -/
 def matchPlans : List TStep → List TStep → Bool
   | [.txt], [.txt] => true
+  | [.txtPair], [.txtPair] => true
+  | [.txtFirst], [.txtFirst] => true
   | [.endStr _], [.endStr _] => true
   | [.endStr _], [.tok, .slurp] => true
   | [p], [q, .slurp] => kindEq p q
@@ -304,6 +306,9 @@ theorem field_word (p q : TStep) (v : TVal) (hk : kindEq p q = true) (hw : Field
 inductive Fits : List TStep → List TStep → List TVal → List TVal → Prop
   | txt (bss : List Bytes) (h : ∀ bs ∈ bss, bs.length ≤ 255) :
       Fits [.txt] [.txt] [.ss (bss.map txtEscape)] [.ss (bss.map txtEscape)]
+  | pair (a b : Bytes) (ha : a.length ≤ 255) (hb : b.length ≤ 255) :
+      Fits [.txtPair] [.txtPair] [.s (txtEscape a), .s (txtEscape b)] [.s (txtEscape a), .s (txtEscape b)]
+  | first (a : Bytes) (ha : a.length ≤ 255) : Fits [.txtFirst] [.txtFirst] [.s (txtEscape a)] [.s (txtEscape a)]
   | rest (u u' : Bool) (t : Bytes) (h : RestWF t) : Fits [.endStr u] [.endStr u'] [.s t] [.s (normRest u t)]
   | tok (u : Bool) (t : Bytes) (h : RestWF t) : Fits [.endStr u] [.tok, .slurp] [.s t] [.s (normRest u t)]
   | last (p q : TStep) (v : TVal) (hk : kindEq p q = true) (hw : FieldWF q v) : Fits [p] [q, .slurp] [v] [v]
@@ -347,6 +352,16 @@ theorem text_roundtrip (P Q : List TStep) (vals vals' : List TVal) (hf : Fits P 
   | txt bss h =>
     refine ⟨sprintTxt (bss.map txtEscape), by simp [printPlan, printStep], ?_⟩
     simp only [parsePlan, txt_family_text_roundtrip zl bss rest hL h, Option.map_some]
+  | pair a b ha hb =>
+    refine ⟨sprintTxt [txtEscape a, txtEscape b], by simp [printPlan, printStep], ?_⟩
+    have := txt_family_text_roundtrip zl [a, b] rest hL (by intro bs hbs; simp at hbs; rcases hbs with rfl | rfl <;> assumption)
+    simp only [List.map_cons, List.map_nil] at this
+    simp only [parsePlan, this, Option.map_some, pairOfChunks, joinBlank]
+  | first a ha =>
+    refine ⟨sprintTxt [txtEscape a], by simp [printPlan, printStep], ?_⟩
+    have := txt_family_text_roundtrip zl [a] rest hL (by intro bs hbs; simp at hbs; rw [hbs]; exact ha)
+    simp only [List.map_cons, List.map_nil] at this
+    simp only [parsePlan, this, Option.map_some, List.headD_cons]
   | rest u u' t h =>
     have hw := normRest_word u t h
     obtain ⟨tk, b, zl', hs, htk, hte, htv, hbv, hbe⟩ := rdata_last_tokens zl (normRest u t) rest hL hw
